@@ -392,7 +392,7 @@ func (e *env) genOp(r *core.Rng, root reflect.Value) opRec {
 			if e.heldPtr == nil {
 				e.heldPtr = map[string]bool{}
 			}
-			e.heldPtr[h] = l.t.Kind() == reflect.Ptr
+			e.heldPtr[h] = slotAliased(l.t)
 			return opRec{Kind: "hold", JS: h + " = " + l.js, Src: l.js}
 		case 2: // Go-side write (leaf values, map entries, pointer targets) — in place, never re-slicing (see DESIGN: Go-side
 			// reallocation of a slice is invisible to element wrappers handed out earlier, which the doc does not promise to track)
@@ -496,8 +496,8 @@ func (e *env) genOp(r *core.Rng, root reflect.Value) opRec {
 				if !fixedRebind() && nestedContainer(et) {
 					meths = []string{".reverse()", ".fill(null, 0, 1)", ".copyWithin(0, 1)", ".pop()"} // (sort re-binds wrappers: see below)
 				}
-				if !fixedPtrSlot() && et.Kind() == reflect.Ptr {
-					meths = meths[1:] // reverse duplicates pointer elements (known finding C13-ptr-element-slot-alias)
+				if !fixedPtrSlot() && slotAliased(et) {
+					meths = meths[1:] // reverse duplicates such elements (known finding C13-ptr-element-slot-alias)
 				}
 				m := core.Pick(r, meths)
 				return opRec{Kind: "arraymeth", JS: l.js + m, Path: l.js, LitKind: methTag(m)}
@@ -520,8 +520,8 @@ func (e *env) genOp(r *core.Rng, root reflect.Value) opRec {
 			if !fixedRebind() && pickOp >= 5 && pickOp <= 6 && (hasPtrMethods(et) || nestedContainer(et)) {
 				pickOp = 7 // sort re-binds element wrappers: they lose their pointer-ness and nested wrappers are not re-bound (same finding)
 			}
-			if !fixedPtrSlot() && pickOp == 7 && et.Kind() == reflect.Ptr {
-				pickOp = 1 // reverse duplicates pointer elements (known finding C13-ptr-element-slot-alias)
+			if !fixedPtrSlot() && pickOp == 7 && slotAliased(et) {
+				pickOp = 1 // reverse duplicates such elements (known finding C13-ptr-element-slot-alias)
 			}
 			switch pickOp {
 			case 0:
@@ -715,6 +715,17 @@ func nestedContainer(t reflect.Type) bool {
 // hasPtrMethods: *t has methods that t lacks (pointer-receiver Stringer / error implementations).
 func hasPtrMethods(t reflect.Type) bool {
 	return t.Kind() != reflect.Ptr && t.Kind() != reflect.Interface && reflect.PointerTo(t).NumMethod() > t.NumMethod()
+}
+
+// slotAliased: wrappers of elements of this type keep referring to the slot they were read from (non-compound, not an unnamed primitive).
+func slotAliased(t reflect.Type) bool {
+	switch t.Kind() {
+	case reflect.Ptr, reflect.Map, reflect.Func:
+		return true
+	case reflect.Struct, reflect.Array, reflect.Slice, reflect.Interface:
+		return false
+	}
+	return !unnamed(t)
 }
 
 func methTag(js string) string {
